@@ -337,6 +337,16 @@ pub fn alias_bits(bits: u128) -> Option<(u32, u32)> {
     })
 }
 
+/// `head` ++ 2^log2 copies of `fill` ++ `tail`: byte slices whose LENGTH exceeds what a u32 can hold (C15)
+pub fn huge_bytes(log2: u32, fill: u8, head: &[u8], tail: &[u8]) -> Vec<u8> {
+    let n = 1usize << log2;
+    let mut v = Vec::with_capacity(head.len() + n + tail.len());
+    v.extend_from_slice(head);
+    v.resize(head.len() + n, fill);
+    v.extend_from_slice(tail);
+    v
+}
+
 /// (2^log2 + 3) copies of `fill` followed by `tail`: inputs whose LENGTH exceeds what a u32 can hold (C10)
 pub fn huge_str(log2: u32, fill: u8, tail: &[u8]) -> String {
     let n = (1usize << log2) + 3;
